@@ -427,4 +427,11 @@ def scaledBound (lower : Bool) (b : Blk) (c i : Nat) : Option XVal :=
 def histEndingAt (pt : List Rat) (pv : List (Option Rat)) (t0 : Rat) (v0 : Option Rat) : Hist :=
   { times := pt ++ [t0], vals := pv ++ [v0] }
 
+/-! ## several sources of scalar bounds (user `bounds()`, Modelica `min`/`max` attributes) -/
+
+/-- `m = max(m, m_)` over all sources, starting from −inf -/
+def intersectLo (los : List EVal) : EVal := los.foldl EVal.max .ninf
+/-- `M = min(M, M_)` over all sources, starting from +inf -/
+def intersectHi (his : List EVal) : EVal := his.foldl EVal.min .pinf
+
 end RtcVerif.C05
